@@ -388,6 +388,96 @@ def wfL (parent : List Str) : List NsD → Bool
   | n :: l => (n.name.dropLast == parent && n.name != []) && n.wf && wfL parent l
 end
 
+/-! ## Where the ids of a page come from; when they cannot coincide -/
+
+deriving instance DecidableEq for CType
+
+/-- where an id of the `namespaceinfo` part comes from, in document order -/
+inductive Source
+  | ns (name : List Str)      -- the entry of a namespace
+  | top (ct : CType)          -- the entry of a listed type (`nested = False`)
+  | topA (es : Str)           -- (an array rendered with `nested = False`: the templates never do this)
+  | nestC (ct : CType)        -- a nested composite entry: id through `make_unique`
+  | nestA (es : Str)          -- a nested array entry: id through `make_unique`
+  deriving DecidableEq, Repr
+
+/-- `(nested?, t | tag_id)` -/
+def Source.entry : Source → Bool × Str
+  | .ns n => (false, nsId n)
+  | .top ct => (false, tagId ct)
+  | .topA es => (false, tagIdArray es)
+  | .nestC ct => (true, tagId ct)
+  | .nestA es => (true, tagIdArray es)
+
+mutual
+def srcEnt (nested : Bool) : Ent → List Source
+  | .comp ct _ attrs => (if nested then Source.nestC ct else .top ct) :: srcEnts attrs
+  | .arr es el => (if nested then Source.nestA es else .topA es) :: srcEnts el
+def srcEnts : List Ent → List Source
+  | [] => []
+  | e :: es => srcEnt true e ++ srcEnts es
+end
+
+def srcTop : List Ent → List Source
+  | [] => []
+  | e :: es => if e.listed then srcEnt false e ++ srcTop es else srcTop es
+
+mutual
+def srcNs : NsD → List Source
+  | .node name types children => .ns name :: srcTop types ++ srcNsL children
+def srcNsL : List NsD → List Source
+  | [] => []
+  | n :: l => srcNs n ++ srcNsL l
+end
+
+/-- ids handed out along a list of `(nested?, base)` with the `UniqueNameGenerator` state threaded -/
+def assign (seen : List Str) : List (Bool × Str) → List Str × List Str
+  | [] => ([], seen)
+  | e :: l => ((entId e.1 seen e.2).1 :: (assign (entId e.1 seen e.2).2 l).1, (assign (entId e.1 seen e.2).2 l).2)
+
+/-- the id of the entry of a namespace or of a listed type (what the sidebar and other pages point to) -/
+def Source.plain : Source → Option Str
+  | .ns n => some (nsId n)
+  | .top ct => some (tagId ct)
+  | .topA es => some (tagIdArray es)
+  | _ => none
+
+def pageConsts : List Str := idsOf nsPageHead
+
+def pageMid : List Str := idsOf nsPageMid
+
+/-- all `(nested?, base)` pairs of a namespace page in document order: constant ids, sidebar twins, the entries -/
+def pageEntries (tr : NsD) : List (Bool × Str) :=
+  (pageConsts ++ (topTargets tr).map (· ++ sidebarSuffix) ++ pageMid).map (fun s => (false, s)) ++ (srcNs tr).map Source.entry
+
+def plainComp (c : Str) : Bool := c.all Char.isAlphanum && (match c with | d :: _ => d.isAlpha | [] => false)
+
+def isArrayGroup (g : Str) : Bool := "array".toList.isPrefixOf g && (g.drop 5).all Char.isDigit
+
+def nsCompOk (c : Str) : Bool := plainComp c && c != "sidebar".toList && !isArrayGroup c
+
+def Source.nested : Source → Option Str
+  | .nestC ct => some (tagId ct)
+  | .nestA es => some (tagIdArray es)
+  | _ => none
+
+/-- a composite type with plain names and a one-digit minor version -/
+def ctOk (ct : CType) : Bool := !ct.comps.isEmpty && ct.comps.all plainComp && decide (ct.minor < 10)
+
+def Source.ok : Source → Bool
+  | .ns n => !n.isEmpty && n.all nsCompOk && !(pageConsts ++ pageMid).contains (nsId n)
+  | .top ct => ctOk ct && !ct.hasParentService
+  | .topA _ => false
+  | .nestC ct => ctOk ct
+  | .nestA es => es.all fun ch => isNameOrDot ch || ch = ' '
+
+def Source.isTop (s : Source) : Bool := s.plain.isSome
+
+/-- The sufficient condition for unique ids on the page of `tr`: every name component is alphanumeric and starts with a
+letter (in particular: no underscore), no namespace component is `sidebar` or `array<digits>`, no namespace id is one of
+the page's constant ids, every minor version is below 10, and the namespaces / listed types are pairwise different. -/
+def simpleRun (tr : NsD) : Bool := (srcNs tr).all Source.ok && decide ((srcNs tr).filter Source.isTop).Nodup
+
 /-! ## Ids as CSS identifiers, links as URLs -/
 
 /-- `#` + this string is an id selector for exactly this id (CSS `<ident-token>` without escapes, ASCII): the scripts
